@@ -383,42 +383,35 @@ theorem scan_eq_topOf (c : Cache) (hc : StoreOK c) (f : Filter) (hf : FilterOK f
     · rintro ⟨h1, h2⟩; exact ⟨(hmem x).1 h1, h2⟩
     · rintro ⟨h1, h2⟩; exact ⟨(hmem x).2 h1, h2⟩
 
-/-- **C03, the index path**: independent of the order in which Go's map hands out the candidates -/
-theorem idx_eq_topOf (c : Cache) (hc : StoreOK c) (f : Filter) (hf : FilterOK f)
-    (perm : List Event → List Event) (hperm : ∀ l, (perm l).Perm l) :
-    c.findIdx perm f = .ok (topOf c f) := by
-  unfold Cache.findIdx
-  simp only []
-  have hp := hperm (c.evs.filter (idxCandidate f))
-  have hcs : ∀ x ∈ perm (c.evs.filter (idxCandidate f)), x ∈ c.evs :=
-    fun x hx => (List.mem_filter.1 (hp.mem_iff.1 hx)).1
-  have hnd : (perm (c.evs.filter (idxCandidate f))).Nodup := hp.nodup_iff.2 (hc.nodup.filter _)
+/-- the top-k loop over ANY duplicate-free list of exactly the index candidates yields the filter's contribution -/
+theorem topk_eq_topOf (c : Cache) (hc : StoreOK c) (f : Filter) (hf : FilterOK f) (cs : List Event)
+    (hnd : cs.Nodup) (hmem : ∀ x, x ∈ cs ↔ x ∈ c.evs ∧ idxCandidate f x = true) :
+    topkLoop f (match f.limit with
+      | some l => min (cs.length : Int) l
+      | none => cs.length) cs [] 0 = .ok (topOf c f) := by
+  have hcs : ∀ x ∈ cs, x ∈ c.evs := fun x hx => ((hmem x).1 hx).1
   rw [topkLoop_eq c.evs hc.inj f _ _ [] 0 hcs (fun x hx => hc.tags x (hcs x hx)) hnd (by simp) (by simp) (by simp) (by simp)]
   congr 1
   -- the sorted list of everything that passes
-  have hS : insAll ((perm (c.evs.filter (idxCandidate f))).filter (suOk f)) [] =
-      sortOrd (c.evs.filter (nip01MatchB f ·)) := by
+  have hS : insAll (cs.filter (suOk f)) [] = sortOrd (c.evs.filter (nip01MatchB f ·)) := by
     apply sorted_ext
     · exact sortOrd_sorted _
     · exact sortOrd_sorted _
     · intro x
-      have h1 := sortOrd_mem c.evs hc.inj ((perm (c.evs.filter (idxCandidate f))).filter (suOk f))
-        (fun y hy => hcs y (List.mem_filter.1 hy).1) x
+      have h1 := sortOrd_mem c.evs hc.inj (cs.filter (suOk f)) (fun y hy => hcs y (List.mem_filter.1 hy).1) x
       have h2 := sortOrd_mem c.evs hc.inj (c.evs.filter (nip01MatchB f ·)) (fun y hy => (List.mem_filter.1 hy).1) x
       simp only [sortOrd] at h1 h2
       simp only [insAll, sortOrd]
       rw [h1, h2]
-      simp only [List.mem_filter, hp.mem_iff, idxCandidate_eq f x hf.names, nip01MatchB, suOk, Bool.and_eq_true]
+      simp only [List.mem_filter, hmem, idxCandidate_eq f x hf.names, nip01MatchB, suOk, Bool.and_eq_true]
       constructor
       · rintro ⟨⟨h, ⟨⟨⟨a, b⟩, c'⟩, d⟩⟩, e1, e2⟩; exact ⟨h, ⟨⟨⟨⟨⟨a, b⟩, c'⟩, d⟩, e1⟩, e2⟩⟩
       · rintro ⟨h, ⟨⟨⟨⟨⟨a, b⟩, c'⟩, d⟩, e1⟩, e2⟩⟩; exact ⟨⟨h, ⟨⟨⟨a, b⟩, c'⟩, d⟩⟩, e1, e2⟩
   rw [hS, topOf]
-  have hlen : (sortOrd (c.evs.filter (nip01MatchB f ·))).length ≤ (c.evs.filter (idxCandidate f)).length := by
+  have hlen : (sortOrd (c.evs.filter (nip01MatchB f ·))).length ≤ cs.length := by
     rw [← hS]
-    have := length_insAll_le ((perm (c.evs.filter (idxCandidate f))).filter (suOk f)) []
-    have h2 : ((perm (c.evs.filter (idxCandidate f))).filter (suOk f)).length ≤ (perm (c.evs.filter (idxCandidate f))).length :=
-      List.length_filter_le _ _
-    have h3 := hp.length_eq
+    have := length_insAll_le (cs.filter (suOk f)) []
+    have h2 : (cs.filter (suOk f)).length ≤ cs.length := List.length_filter_le _ _
     simp only [List.length_nil] at this
     omega
   cases hl : f.limit with
@@ -427,10 +420,21 @@ theorem idx_eq_topOf (c : Cache) (hc : StoreOK c) (f : Filter) (hf : FilterOK f)
     exact List.take_of_length_le (by simpa using hlen)
   | some l =>
     simp only [Option.map_some, takeOpt]
-    by_cases hle : ((c.evs.filter (idxCandidate f)).length : Int) ≤ l
+    by_cases hle : (cs.length : Int) ≤ l
     · rw [Int.min_eq_left hle]
       rw [List.take_of_length_le (by simpa using hlen), List.take_of_length_le (by omega)]
     · rw [Int.min_eq_right (by omega)]
+
+/-- **C03, the index path**: independent of the order in which Go's map hands out the candidates -/
+theorem idx_eq_topOf (c : Cache) (hc : StoreOK c) (f : Filter) (hf : FilterOK f)
+    (perm : List Event → List Event) (hperm : ∀ l, (perm l).Perm l) :
+    c.findIdx perm f = .ok (topOf c f) := by
+  unfold Cache.findIdx
+  simp only []
+  have hp := hperm (c.evs.filter (idxCandidate f))
+  rw [← hp.length_eq]
+  exact topk_eq_topOf c hc f hf _ (hp.nodup_iff.2 (hc.nodup.filter _))
+    (fun x => by rw [hp.mem_iff, List.mem_filter])
 
 theorem takeOpt_mem {α} (o : Option Nat) (l : List α) (x : α) (h : x ∈ takeOpt o l) : x ∈ l := by
   cases o with
